@@ -1083,6 +1083,50 @@ func c17RoundingSensitive(v *c17J) bool {
 	return false
 }
 
+// c17MembersOK: at every struct-typed position of a filtered value the object
+// has exactly the declared members (only meaningful for non-fatal results).
+func c17MembersOK(t *c17Ty, v *c17J) bool {
+	switch t.kind {
+	case 'a':
+		if v.kind == 'a' {
+			for _, e := range v.arr {
+				if !c17MembersOK(t.elem, e) {
+					return false
+				}
+			}
+		}
+	case 'm':
+		if v.kind == 'o' {
+			for _, e := range v.arr {
+				if !c17MembersOK(t.elem, e) {
+					return false
+				}
+			}
+		}
+	case 's':
+		if v.kind == 'o' {
+			if len(v.arr) != len(t.fields) {
+				return false
+			}
+			for _, f := range t.fields {
+				found := false
+				for i, k := range v.keys {
+					if k == f.id {
+						found = true
+						if !c17MembersOK(f.t, v.arr[i]) {
+							return false
+						}
+					}
+				}
+				if !found {
+					return false
+				}
+			}
+		}
+	}
+	return true
+}
+
 func c17RootShape(t *c17Ty, v *c17J) bool {
 	switch t.kind {
 	case 'a':
@@ -1357,6 +1401,11 @@ func c17Judge(c *Ctx, cs *c17Case, reply string, report bool) []string {
 		fail(Violation{Kind: "property", Key: "C17:only-drops" + sfx,
 			What: "FilterJson changed more than dropping members / rewriting integral floats",
 			Impl: string(g.out), Expect: string(cs.text)})
+	}
+	if g.ferr != "fatal" && !c17MembersOK(cs.t, g.outTree) {
+		fail(Violation{Kind: "property", Key: "C17:struct-members" + sfx,
+			What: "a (non-fatally) filtered value has a struct-typed position whose members are not exactly the declared ones",
+			Impl: string(g.out)})
 	}
 	if g.check == "ok" && g.check2 != "ok" {
 		fail(Violation{Kind: "property", Key: "C17:filter-invalidates-valid-value" + sfx,
